@@ -409,3 +409,81 @@ M("c10-followed-by-gets-guard", "C10", [(PRE, '''        return __class__(
         return __class__(
             f"{self._assert_conditional_group()}(?={pre})",''')], rule="R-LB-GUARD")
 M("c10-guard-drops-range-form", "C10", [(PRE, "(?<!\\\\)(?:\\\\\\\\)*(?<!\\()(?:\\?|\\*|\\+|\\{,\\d+\\}|\\{\\d+,\\}|\\{\\d+,\\d+\\})|", "(?<!\\\\)(?:\\\\\\\\)*(?<!\\()(?:\\?|\\*|\\+|\\{,\\d+\\}|\\{\\d+,\\})|", 0)], rule="R-LB-GUARD")
+
+# ---------------------------------------------------------------- C18
+M("c18-ipv4-octet-256", "C18", [(ESS, "'5' + (any_digit_up_to_four | '5')", "'5' + (any_digit_up_to_four | '5' | '6')")], rule="R-IPV4")
+M("c18-ipv4-leading-zero", "C18", [(ESS, "            any_digit_but_zero + _cl.AnyDigit(),\n            '1' + 2 * _cl.AnyDigit(),", "            _cl.AnyDigit() + _cl.AnyDigit(),\n            '1' + 2 * _cl.AnyDigit(),")], rule="R-IPV4")
+M("c18-ipv4-three-octets", "C18", [(ESS, 'pre = 3 * (ip_octet + ".") + ip_octet', 'pre = 2 * (ip_octet + ".") + ip_octet')], rule="R-IPV4")
+M("c18-ipv4-guard-dropped", "C18", [(ESS, '            pre = pre.not_enclosed_by(_op.Either(_cl.AnyDigit(), "."))', '            pre = pre.not_preceded_by(_op.Either(_cl.AnyDigit(), "."))')], rule="R-IPV4")
+M("c18-ipv4-up-to-four", "C18", [(ESS, "any_digit_up_to_four = _cl.AnyBetween('0', '4')", "any_digit_up_to_four = _cl.AnyBetween('0', '3')")], rule="R-IPV4")
+M("c18-ipv6-right-bound", "C18", [(ESS, "m=6-i) if i < 6 else empty", "m=7-i) if i < 7 else empty")], rule="R-IPV6")
+M("c18-ipv6-range-7", "C18", [(ESS, "        for i in range(8):\n            pre = _op.Either(", "        for i in range(7):\n            pre = _op.Either(")], rule="R-IPV6")
+M("c18-ipv6-left-bound", "C18", [(ESS, 'n=0, m=i-1) if i > 1 else empty', 'n=0, m=i) if i > 1 else empty')], rule="R-IPV6")
+M("c18-ipv6-seven-groups", "C18", [(ESS, 'pre = 7 * (hex_group + ":") + hex_group', 'pre = 6 * (hex_group + ":") + hex_group')], rule="R-IPV6")
+M("c18-ipv6-group-length", "C18", [(ESS, "hex_group = Numeral(base=16, n_min=1, n_max=4, is_extensible=is_extensible)", "hex_group = Numeral(base=16, n_min=1, n_max=5, is_extensible=is_extensible)")], rule="R-IPV6")
+M("c18-ipv6-no-bare-double-colon", "C18", [(ESS, '        pre = _op.Either(pre, "::")\n', '')], rule="R-IPV6")
+M("c18-benign-octet-reordered", "C18", [(ESS, """            _cl.AnyDigit(),
+            any_digit_but_zero + _cl.AnyDigit(),
+            '1' + 2 * _cl.AnyDigit(),""", """            '1' + 2 * _cl.AnyDigit(),
+            any_digit_but_zero + _cl.AnyDigit(),
+            _cl.AnyDigit(),""")], expect="silent")
+M("c18-benign-explicit-octets", "C18", [(ESS, 'pre = 3 * (ip_octet + ".") + ip_octet', 'pre = ip_octet + "." + ip_octet + "." + ip_octet + "." + ip_octet')], expect="silent")
+
+# ---------------------------------------------------------------- C19
+M("c19-benign-dead-first-digit", "C19", [(ESS, "either_one_or_two.either('3') + \\", "either_one_or_two.either('3').either('4') + \\")], expect="silent")  # '4' can never be followed: language unchanged
+M("c19-dd-32", "C19", [(ESS, "either_zero_or_one.preceded_by('3')", "either_one_or_two.either('0').preceded_by('3')")], rule="R-DATE-TOKENS")
+M("c19-dd-lookbehind-dropped", "C19", [(ESS, "_cl.AnyDigit().preceded_by(either_one_or_two),", "_cl.AnyDigit(),")], rule="R-DATE-TOKENS")
+M("c19-mm-13", "C19", [(ESS, "'1' + either_zero_or_one.either('2')),", "'1' + either_zero_or_one.either('2').either('3')),")], rule="R-DATE-TOKENS")
+M("c19-yyyy-three-digits", "C19", [(ESS, "'yyyy': _cl.AnyDigit() * 4,", "'yyyy': _cl.AnyDigit() * 3,")], rule="R-DATE-TOKENS")
+M("c19-d-allows-zero", "C19", [(ESS, "'d': any_digit_but_zero, ", "'d': _cl.AnyDigit(), ")], rule="R-DATE-TOKENS")
+M("c19-format-dropped", "C19", [(ESS, "                    date_formats.append((y, m, d))\n", "                    if d == 'dd':\n                        date_formats.append((y, m, d))\n")], rule="R-DATE-FORMATS")
+M("c19-wrong-separator", "C19", [(ESS, "            if i < len(values) - 1:\n                pre += separator", "            if i < len(values) - 1:\n                pre += '-'")], rule="R-DATE-SKELETON")
+M("c19-day-month-swapped-table", "C19", [(ESS, "            'm': any_digit_but_zero,\n            'mm': _op.Either(", "            'm': any_digit_but_zero,\n            'MM': _op.Either(")], expect="fire")
+M("c19-validation-removed", "C19", [(ESS, """            if format not in date_formats:
+                message = f"Provided date format \\"{format}\\" is not valid."
+                raise _ex.InvalidArgumentValueException(message)
+""", "")], expect="fire")
+M("c19-boundary-dropped", "C19", [(ESS, "        pre = _op.Either(*dates)\n\n        if not is_extensible:\n            pre = pre.enclose(_asr.WordBoundary())", "        pre = _op.Either(*dates)\n\n        if is_extensible:\n            pre = pre.enclose(_asr.WordBoundary())")], rule="R-DATE-SELECT")
+M("c19-benign-loop-order", "C19", [(ESS, """        day = ("dd", "d")
+        month = ("mm", "m")""", """        day = ("d", "dd")
+        month = ("m", "mm")""")], expect="silent")
+M("c19-benign-mm-respelled", "C19", [(ESS, "'1' + either_zero_or_one.either('2')),", "'1' + _cl.AnyBetween('0', '2')),")], expect="silent")
+
+# ---------------------------------------------------------------- C17
+M("c17-digit-map-wrong-letter", "C17", [(ESS, '12 : _cl.AnyFrom("b", "B")', '12 : _cl.AnyFrom("b", "D")')], rule="R-NUM-ALPHABET")
+M("c17-range-off-by-one", "C17", [(ESS, "for i in range(2, base + 1):", "for i in range(2, base):")], rule="R-NUM-ALPHABET")
+M("c17-benign-any-between-0-2", "C17", [(ESS, 'pre = _cl.AnyBetween("0", "1")', 'pre = _cl.AnyBetween("0", "2")')], expect="silent")  # only reached for base >= 3, where '2' is a digit anyway
+M("c17-base2-digits", "C17", [(ESS, 'pre = _op.Either("0", "1")', 'pre = _op.Either("0", "1", "2")')], rule="R-NUM-ALPHABET")
+M("c17-numeral-bounds-swapped", "C17", [(ESS, "pre = pre.at_least_at_most(n=n_min, m=n_max)", "pre = pre.at_least_at_most(n=n_min, m=n_min)")], rule="R-NUM-BOUNDS")
+M("c17-word-bounds-off", "C17", [(ESS, "pre = pre.at_least_at_most(n=min_chars, m=max_chars)", "pre = pre.at_least_at_most(n=min_chars - 1, m=max_chars)")])
+M("c17-word-boundary-inverted", "C17", [(ESS, "        if not is_extensible:\n            pre = pre.enclose(_asr.WordBoundary())\n        super().__init__(str(pre), escape=False)\n\n\n\nclass Word(", "        if is_extensible:\n            pre = pre.enclose(_asr.WordBoundary())\n        super().__init__(str(pre), escape=False)\n\n\n\nclass Word(")])
+M("c17-prefix-on-wrong-side", "C17", [(ESS, "        pre = _op.Either(*prefix)\n        pre = pre + _qu.Indefinite(_cl.AnyWordChar(is_global=is_global))", "        pre = _op.Either(*prefix)\n        pre = _qu.Indefinite(_cl.AnyWordChar(is_global=is_global)) + pre")], rule="R-WORD-SKELETON")
+M("c17-contains-one-or-more", "C17", [(ESS, "            _op.Either(*infix),\n            _qu.Indefinite(_cl.AnyWordChar(is_global=is_global))", "            _op.Either(*infix),\n            _qu.OneOrMore(_cl.AnyWordChar(is_global=is_global))")], rule="R-WORD-SKELETON")
+M("c17-global-not-forwarded", "C17", [(ESS, "        pre = _op.Either(*suffix)\n        pre = _qu.Indefinite(_cl.AnyWordChar(is_global=is_global)) + pre", "        pre = _op.Either(*suffix)\n        pre = _qu.Indefinite(_cl.AnyWordChar()) + pre")], rule="R-WORD-SKELETON")
+M("c17-base-guard-16", "C17", [(ESS, "if base < 2 or base > 16:", "if base < 2 or base > 17:")])
+M("c17-benign-nmin-bool-rejected-downstream", "C17", [(ESS, "if not isinstance(n_min, int) or isinstance(n_min, bool):", "if not isinstance(n_min, int):")], expect="silent")  # at_least_at_most still raises the same exception
+M("c17-nmin-guard-removed", "C17", [(ESS, """        elif n_min < 0:
+            message = "Parameter \\"n_min\\" must be positive."
+            raise _ex.InvalidArgumentValueException(message)
+        elif not isinstance(n_max, int)""", """        elif not isinstance(n_max, int)""")], expect="silent")  # idem: the quantifier validates n
+M("c17-benign-concat-class", "C17", [(ESS, "        pre = _op.Either(*prefix)\n        pre = pre + _qu.Indefinite(_cl.AnyWordChar(is_global=is_global))", "        pre = _op.Concat(_op.Either(*prefix), _cl.AnyWordChar(is_global=is_global).indefinite())")], expect="silent")
+M("c17-benign-digit-map-respelled", "C17", [(ESS, '11 : _cl.AnyFrom("a", "A")', '11 : _cl.AnyFrom("A", "a")')], expect="silent")
+
+# ---------------------------------------------------------------- C16
+M("c16-bounds-swapped", "C16", [(ESS, 'pre += "." + Numeral(n_min=min_decimal, n_max=max_decimal, is_extensible=is_extensible)', 'pre += "." + Numeral(n_min=max_decimal, n_max=min_decimal, is_extensible=is_extensible)')])
+M("c16-wrong-integer-class", "C16", [(ESS, "        integer_part = NegativeInteger(start, end, is_extensible)", "        integer_part = PositiveInteger(start, end, is_extensible)")], rule="R-DEC-VARIANT")
+M("c16-start-test-altered", "C16", [(ESS, """        integer_part = PositiveInteger(start, end, is_extensible)
+        if start == 0:""", """        integer_part = PositiveInteger(start, end, is_extensible)
+        if start <= 1:""")], rule="R-DEC-VARIANT")
+M("c16-negative-optional-sign", "C16", [(ESS, "            no_integer_part += '-'\n", "            no_integer_part += _qu.Optional('-')\n")], rule="R-DEC-SIGN")
+M("c16-positive-allows-minus", "C16", [(ESS, '            no_integer_part += _qu.Optional("+")\n', '            no_integer_part += _qu.Optional(_op.Either("+", "-"))\n')], rule="R-DEC-SIGN")
+M("c16-digit-guard-lost", "C16", [(ESS, """        if start == 0:
+            no_integer_part = _pre.Pregex().not_preceded_by(_cl.AnyDigit())
+            if include_sign:""", """        if start == 0:
+            no_integer_part = _pre.Pregex()
+            if include_sign:""")], rule="R-DEC-SIGN")
+M("c16-dot-dropped", "C16", [(ESS, 'pre += "." + Numeral(n_min=min_decimal', 'pre += Numeral(n_min=min_decimal')], rule="R-DEC-SKELETON")
+M("c16-extensible-not-forwarded", "C16", [(ESS, 'Numeral(n_min=min_decimal, n_max=max_decimal, is_extensible=is_extensible)', 'Numeral(n_min=min_decimal, n_max=max_decimal)')], rule="R-DEC-SKELETON")
+M("c16-min-decimal-zero-ok", "C16", [(ESS, "        elif min_decimal < 1:", "        elif min_decimal < 0:")], rule="R-ARGS")
+M("c16-integer-args-swapped", "C16", [(ESS, "integer_part = UnsignedInteger(start, end, is_extensible)", "integer_part = UnsignedInteger(end, start, is_extensible)")])
+M("c16-benign-keyword-args", "C16", [(ESS, "integer_part = UnsignedInteger(start, end, is_extensible)", "integer_part = UnsignedInteger(start=start, end=end, is_extensible=is_extensible)")], expect="silent")
